@@ -27,6 +27,8 @@ type PropConfig struct {
 	TrustedBase []string `json:"trusted_base"`
 	Explanation string   `json:"explanation"`
 	Replay      string   `json:"replay"` // replay family
+	Witnesses   []string `json:"witnesses"` // witness inputs tried first by the replay harness
+	Slow        []string `json:"slow"`      // regexps: obligations only run in the thorough tier
 	MinObl      int      `json:"min_obligations"`
 	Bounded     []BoundedSpec `json:"bounded"`
 }
@@ -119,7 +121,11 @@ func cmdCheck(args []string) int {
 		}
 		return false
 	}
-	var incRe, excRe []*regexp.Regexp
+	var incRe, excRe, slowRe []*regexp.Regexp
+	var slowSkipped []string
+	for _, s := range pc.Slow {
+		slowRe = append(slowRe, regexp.MustCompile(s))
+	}
 	for _, s := range pc.Include {
 		incRe = append(incRe, regexp.MustCompile(s))
 	}
@@ -147,6 +153,14 @@ func cmdCheck(args []string) int {
 				return false
 			}
 		}
+		if *tier != "thorough" {
+			for _, r := range slowRe {
+				if r.MatchString(o.Name) {
+					slowSkipped = append(slowSkipped, o.Name)
+					return false
+				}
+			}
+		}
 		return true
 	}
 	var keys []string
@@ -161,7 +175,13 @@ func cmdCheck(args []string) int {
 		}
 		keys = append(keys, p)
 	}
+	var inlined []string
 	for _, k := range keys {
+		if ct := e.contracts.Funcs[k]; ct != nil && ct.Inline {
+			// verified in the context of each caller (expanded at its call sites)
+			inlined = append(inlined, k)
+			continue
+		}
 		fc, err := e.genFunction(e.funcs[k])
 		if err != nil {
 			// a contract that no longer attaches (renamed local, restructured loop) is not a verdict
@@ -338,6 +358,8 @@ func cmdCheck(args []string) int {
 		"explanation":              expl,
 		"degraded":                 degraded,
 		"not_claimed":              map[string]interface{}{"obligations": unclaimed, "why": pc.ExcludeWhy},
+		"thorough_tier_only":       slowSkipped,
+		"inlined_into_callers":     inlined,
 		"bounded":                  boundedRes,
 		"contract_assumes":         e.contracts.Assumes,
 	}
